@@ -214,6 +214,9 @@ class CapturedPath:
   def _find_edge_from_path_to_segment(self, path, oriented_segment):
     edges = []
     for edge in oriented_segment.line.edges:
+      if any(e.line is edge for e in edges):
+        # (an edge of the segment with itself is listed once per end)
+        continue
       if (edge.sid1 == oriented_segment and edge.sid2 == path[-1]) or \
          (edge.sid1 == path[-1] and edge.sid2 == oriented_segment):
         edges.append(gfapy.OrientedLine(edge, "+"))
